@@ -97,6 +97,7 @@ structure Inv (s : State) : Prop where
       s.online = false ∨ s.w = .sendReq)
   ts : s.termSent = true → s.newSent = true ∧ StatusCodes.isTerminal s.lastTerm = true
   ac : s.apiCancelled = true → s.newSent = true
+  cx : s.callerCtx = true → s.newSent = true
 
 theorem inv_init (p e t : Nat) : Inv (init p e t) := by
   constructor <;> simp [init, execActive, needsLoad, replyPending, tQuiet, tVisitOk, cpNeedsGone, ceNeedsGone,
